@@ -143,6 +143,7 @@ def main():
     except GenError as e:
         run.proof_broken.append('translator: ' + str(e))
     run.check_proofs(deps=['theories/Model/Unicode.vo', 'theories/Spec/IntLitSpec.vo', 'theories/Spec/Utf.vo'])
+    NCORPUS = run_corpus(run, PID, src)          # minimised past failures first
     rc, o, e = sh([os.path.join(VERIF, 'ocaml/build.sh')], timeout=900)
     model_ok = rc == 0
     if not model_ok: run.corr_broken.append('extracted model does not build: ' + (o + e)[-300:])
